@@ -17,6 +17,7 @@ LR semantics (the property statement in formal dress; definitional):
 """
 import z3
 from pyvc.ty import SV, ANY, AnyS
+from pyvc.util import native_file
 
 TRUSTED = [
     "LR driver semantics LRN/LRE/VALID (contracts/lalrmodel.py): taken from the textbook shift/reduce step, not from the code",
@@ -44,7 +45,10 @@ def register_lalr(reg, serves):
     TT = 'StatesTable'
     reg.cls('NonTerminal', target='lark.grammar:NonTerminal', consts={'name': 'str'})
     reg.cls('Rule', target='lark.grammar:Rule', consts={'expansion': 'sized', 'origin': 'NonTerminal'})
-    reg.cls('Token', target='lark.lexer:Token', fields={'type': 'str'})
+    # whatever the callbacks build (trees, tokens, user values): objects whose state the callbacks of later reductions may change in place
+    # (ChildFilterLALR re-uses the child list of its first child)
+    reg.cls('Value', fields={'content': 'any'})
+    reg.cls('Token', target='lark.lexer:Token', bases=['Value'], consts={'type': 'str'})     # parser callbacks do not retype tokens
     reg.cls('LexerThread', target='lark.lexer:LexerThread', fields={'lexer': 'any', 'state': 'opt[LexerState]'})
     reg.cls('LexerState', target='lark.lexer:LexerState', fields={'text': 'any', 'line_ctr': 'LineCounter', 'last_token': 'opt[Token]'})
     reg.cls('LineCounter', target='lark.lexer:LineCounter',
@@ -57,7 +61,7 @@ def register_lalr(reg, serves):
     reg.cls('ParseConf', target='lark.parsers.lalr_parser_state:ParseConf',
             fields={'parse_table': 'any', 'callbacks': 'dict[any,any]', 'start': 'str', 'start_state': 'int', 'end_state': 'int', 'states': TT})
     reg.cls('ParserState', target='lark.parsers.lalr_parser_state:ParserState',
-            fields={'parse_conf': 'ParseConf', 'lexer': 'opt[LexerThread]', 'state_stack': 'list[int]', 'value_stack': 'list[any]'})
+            fields={'parse_conf': 'ParseConf', 'lexer': 'opt[LexerThread]', 'state_stack': 'list[int]', 'value_stack': 'list[Value]'})
     for e, b in (('LarkError', ['Exception']), ('ParseError', ['LarkError']), ('UnexpectedInput', ['LarkError']),
                  ('UnexpectedToken', ['ParseError', 'UnexpectedInput'])):
         reg.cls(e, exception=True, bases=b,
@@ -114,11 +118,16 @@ def register_lalr(reg, serves):
     reg.contract('lark.parsers.lalr_parser_state:ParserState.feed_token', serves=serves, kind='method',
                  params={'self': 'ParserState', 'token': 'Token', 'is_end': 'bool'}, returns='any',
                  ghost={'defaults': {'is_end': False},
+                        'Delete#0': ['all(implies(len(callbacks) > 0, fresh(s[j]) or any(old(seq(self.value_stack))[i] is s[j] '
+                                     'for i in range(0, len(old(seq(self.value_stack)))))) for j in range(0, len(s)))'],
                         'callv:callbacks[token.type]#0': dict(returns='any'),
-                        'callv:callbacks[rule]#0': dict(returns='any')},
-                 types={'any.expansion': 'Rule', 'any.origin': 'Rule'},
+                        # a rule callback may change its children in place (and returns anything)
+                        # and returns a new object or one of its children
+                        'callv:callbacks[rule]#0': dict(returns='any', modifies_elements=[0], assumes=[
+                            'fresh(cast(result, Value)) or any(arg0[i] is cast(result, Value) for i in range(0, len(arg0)))'])},
+                 types={'any.expansion': 'Rule', 'any.origin': 'Rule', 's': 'list[Value]'},
                  requires=SHAPE + [CBOK, 'VALID(%s)' % ARGS],
-                 modifies=['self.state_stack', 'self.value_stack'],
+                 modifies=['self.state_stack', 'self.value_stack', 'elements_if(len(self.parse_conf.callbacks) > 0, self.value_stack)'],
                  ensures=[
                      'len(self.state_stack) == len(self.value_stack) + 1',
                      'all(KEY(%s, self.state_stack[i]) for i in range(0, len(self.state_stack)))' % ST,
@@ -140,10 +149,14 @@ def register_lalr(reg, serves):
                  loops={0: dict(inv=SHAPE + [
                      'state_stack is self.state_stack', 'value_stack is self.value_stack', 'states is self.parse_conf.states',
                      'end_state == self.parse_conf.end_state', 'callbacks is self.parse_conf.callbacks',
+                     # every value on the stack is owned: created during this call or on the stack at entry
+                     'all(implies(len(self.parse_conf.callbacks) > 0, fresh(self.value_stack[i]) or any(old(seq(self.value_stack))[j] is self.value_stack[i] '
+                     'for j in range(0, len(old(seq(self.value_stack))))) ) for i in range(0, len(self.value_stack)))',
                      'VALID(%s)' % ARGS, 'LRN(%s) == %s' % (ARGS, N0),
                      'all(LRE(%s, i) == LRE(%s, i) for i in INT)' % (ARGS, OLD)],
                      decreases='RK(%s)' % ARGS)},
-                 names={'Shift': ('sv', SHIFT), 'UnexpectedToken': ('class', 'UnexpectedToken')})
+                 names={'Shift': ('sv', SHIFT), 'UnexpectedToken': ('class', 'UnexpectedToken')},
+                 replay=lambda model: native_file('bounded/c13_interactive.py'))
 
 
 def _any_disjoint(ev):
